@@ -149,6 +149,10 @@ impl ::rand::distributions::Distribution<f64> for StudentsT {
     fn sample<R: ::rand::Rng + ?Sized>(&self, r: &mut R) -> f64 {
         // based on method 2, section 5 in chapter 9 of L. Devroye's
         // "Non-Uniform Random Variate Generation"
+        if self.freedom.is_infinite() {
+            // the limiting normal law (the gamma mixing variate below would be inf / inf)
+            return super::normal::sample_unchecked(r, self.location, self.scale);
+        }
         let gamma = super::gamma::sample_unchecked(r, 0.5 * self.freedom, 0.5);
         super::normal::sample_unchecked(
             r,
